@@ -11,7 +11,7 @@ from vlib.harness import V, derive_seed, run_shards
 from vlib.hjmodel import ACCEPT, LEVEL
 
 PROPERTY = 'C03'
-AMBIENT_PASS = True        # the same search once more under unusual ambient settings (vlib.run.AMBIENT_SETTINGS)
+AMBIENT_PASS = 'quick'       # the same search once more under unusual ambient settings (vlib.run.AMBIENT_SETTINGS)
 RULE = ('complete competitions: (i) every decided state (finished / won / drawn) met by a breadth-first enumeration of all '
         'call sequences (n=2 depth 9/10, n=3 depth 6/8); (ii) card-driven plays: 2-4 athletes x 1-4 regular heights, each '
         'cell drawn from the legal attempt strings (o xo xxo xxx - x- xx- r xr xxr and empty; a shared per-height script '
